@@ -10,7 +10,8 @@
    are the ones from_ast already ran on the same node; they hold for every constructed value and
    are not repeated here.  What remains, per context:
      Legacy   : pk_cost <= 520; sat_op_count <= 201 (None = no satisfaction: refused);
-                max_script_sig_size <= 1650 (None: refused)
+                max_script_sig_size + pk_cost + push_opcode_size(pk_cost) <= 1650 (None: refused;
+                the push of the redeem script is counted since /repo e37a8a3d)
      Segwitv0 : pk_cost <= 10000; pk_cost <= 3600; sat_op_count <= 201;
                 max_witness_stack_count + 1 <= 100
      Bare     : pk_cost <= 10000; sat_op_count <= 201
@@ -37,7 +38,7 @@ Definition within_resource_limits (c : ctx) (unc : key -> bool) (m : ms) : bool 
   match c with
   | Legacy =>
     N.leb pk 520 && ole_n (ExtModel.sat_op_count x) 201
-    && ole_n (option_map ExtModel.sd_ssig (ExtModel.sat_data x)) 1650
+    && ole_n (option_map (fun d => ExtModel.sd_ssig d + pk + ExtModel.push_opcode_size pk) (ExtModel.sat_data x)) 1650
   | Segwitv0 =>
     N.leb pk 10000 && N.leb pk 3600 && ole_n (ExtModel.sat_op_count x) 201
     && ole_n (ExtModel.max_sat_witness_elements x) 100
